@@ -10,7 +10,7 @@ PROP = 'C11'
 C_EPS = 10.0
 RULE = ('cases = {fast_matvec (python backend), dmrg_hadamard, amen_mv, amen_mm} on compatible operand pairs of order 1..6, mode sizes 1..6 (rectangular operators, dense size '
         'capped at 3e5), ranks 1..4, Gaussian exact-rank and decaying-spectrum cores, zero operands, eps log-uniform in [1e-12,1e-1], default sweep budgets, with and without a '
-        'user initial guess of arbitrary rank, real and (DMRG routines) complex; every structural case is repeated over k internal seeds (quick k=3, thorough k=12) - the library '
+        'user initial guess of arbitrary rank (random, or the exact product truncated at 30/10/2 percent: coarse but stationary), real and (DMRG routines) complex; a few exhausted budgets nswp=1,2 judged for acceptance/shape/finiteness only; every structural case is repeated over k internal seeds (quick k=3, thorough k=12) - the library '
         'draws its random initial guess / enrichment from the torch global RNG, which the harness seeds per execution. Oracle: result kind/shape; '
         '||D(y)-ref|| <= 10*eps*||ref|| + 1e3*u*S_rep with ref the dense product. distinct = (routine, structure, eps decade, guess, dtype, seed index); non-trivial = non-zero reference.')
 ASSUMPTIONS = ['"a small constant times eps" is fixed a priori as 10*eps', 'C++ backend off here (use_cpp=False); C17 covers it', 'amen_mv/amen_mm are exercised with real dtypes (their inner products are not conjugated)']
